@@ -71,6 +71,7 @@ class Sim:
         self.unknown_sites = set()
         self.probes = {}
         self.sha = hashlib.sha256()
+        self.addr_sha = hashlib.sha256()
         self.n_events = 0
         self.tail = []  # last events, for diagnosis
         self.keep_tail = 60
@@ -98,6 +99,13 @@ class Sim:
 
     def digest(self):
         return self.sha.hexdigest()
+
+    def trace_addr(self, *ev):
+        """Object addresses: repeatable for a fixed PYTHONHASHSEED only, hence a digest of their own."""
+        self.addr_sha.update(repr(ev).encode())
+
+    def addr_digest(self):
+        return self.addr_sha.hexdigest()
 
     def probe(self, name, n=1):
         self.probes[name] = self.probes.get(name, 0) + n
